@@ -1,3 +1,4 @@
+import Cctp.Spec.Toy
 import Cctp.Lemmas.Shapes
 /-
   C08 — deposits are accepted exactly under the documented preconditions.
@@ -122,5 +123,17 @@ theorem nonpositive_rejected (ext : Ext) (cfg : Cfg) (st : Store) (led : Ledger)
 
 /-- body size boundary: a maximum body size of exactly 132 admits deposits, 131 does not. -/
 theorem body_size_boundary : (132 ≤ 132) ∧ ¬ (132 ≤ 131) := by decide
+
+/-! non-vacuity: the toy hash has 32-byte digests, a concrete deposit satisfies every precondition, and the same deposit
+    over the configured limit (100) or with a failing bank does not -/
+theorem toy_keccakLen : KeccakLen Toy.ext := by
+  intro b; simp [Toy.ext, zeros]
+example : Pre Toy.ext Toy.cfg Toy.st Toy.led Toy.alice (some 5) 0 (List.replicate 32 9) Toy.denom [] :=
+  (deposit_ok_iff Toy.ext Toy.cfg Toy.st Toy.led Toy.alice (some 5) 0 (List.replicate 32 9) Toy.denom [] toy_keccakLen).mp
+    ((Toy.isOk_iff _).mp (by decide +kernel))
+example : ¬ Pre Toy.ext Toy.cfg Toy.st Toy.led Toy.alice (some 101) 0 (List.replicate 32 9) Toy.denom [] := fun h =>
+  absurd ((Toy.isOk_iff _).mpr ((deposit_ok_iff _ _ _ _ _ _ _ _ _ _ toy_keccakLen).mpr h)) (by decide +kernel)
+example : Pre Toy.ext Toy.cfg Toy.st Toy.led Toy.alice (some 100) 0 (List.replicate 32 9) Toy.denom [] :=
+  (deposit_ok_iff _ _ _ _ _ _ _ _ _ _ toy_keccakLen).mp ((Toy.isOk_iff _).mp (by decide +kernel))
 
 end Cctp.C08
